@@ -12,7 +12,7 @@ from decimal import Decimal
 from lib import monitors
 
 ID = 'C04'
-TECHNIQUE = 'runtime monitor: digit-count assertion at every arithmetic node exit and numeric-builtin exit, operand widths in hand'
+TECHNIQUE = "runtime monitor: digit-count assertion at every arithmetic node exit and numeric-builtin exit, operand widths in hand; random magnitudes, coverage-guided programs (atheris), the repository's tests"
 RULE = ('programs: every arithmetic operator and compound assignment (name and index form) over all ordered pairs from a pool of '
         'host-suppliable numbers (ints up to 10^50, bools, floats incl. 1e300/nan/inf, Decimals with 1-40 digit coefficients and '
         'exponents up to +-5000) and repetition-capable operands (str, list), as host names and as literals; multipliers obtained '
